@@ -217,7 +217,7 @@ pub fn run(ctx: &mut Ctx) {
     ctx.forall("pairs", cases, strat(max), check);
     {
         let m = ID.model();
-        let lens = gen::long_lens(ctx.thorough(), ctx.seed);
+        let lens = gen::long_lens_bits(4, ctx.thorough(), ctx.seed);
         ctx.forall_lens(
             "pairs_long",
             &lens,
